@@ -628,3 +628,157 @@ impl Prop for C19 {
             .collect()
     }
 }
+
+// ------------------------------------------------------------------------------------------------
+// C19 / C05: the same registration sequences in a second process and without the `parallel` feature
+
+pub fn run_external(property: &'static str, quick: bool, seed: u64) -> crate::driver::SubResult {
+    use crate::driver::{verif_dir, SubResult, Violation};
+    use proptest::collection::vec as pvec;
+    use proptest::prelude::any;
+    use proptest::strategy::{Strategy, ValueTree};
+    use proptest::test_runner::{Config, RngSeed, TestRunner};
+    let t0 = std::time::Instant::now();
+    let name = if property == "C19" { "c19-processes" } else { "c05-nopar" };
+    let rule = if property == "C19" {
+        "generated registration sequences (general generator) summarised (canonical nested layout) in this process, in a SECOND PROCESS of the same binary (ahash is seeded per process) and by the harness built against shred WITHOUT the `parallel` feature; oracle: the three layouts are identical; non-trivial = >= 2 stages; distinct = plan hash"
+    } else {
+        "generated registration sequences whose systems apply order-sensitive updates, dispatched 2x sequentially in this process (dispatch_seq + thread-local), in a second process, and by the harness built WITHOUT the `parallel` feature (both dispatch_seq + thread-local and plain dispatch); oracle: world contents, every system's state and run counters are identical in all of them; non-trivial = a resource written by >= 2 systems; distinct = plan hash"
+    };
+    let mut stats = Stats::default();
+    let mut violation = None;
+    let mut harness_error = None;
+    let n = if quick { 1500 } else { 60_000 };
+    let cfg = Config {
+        rng_seed: RngSeed::Fixed(seed.wrapping_mul(64).wrapping_add(19)),
+        failure_persistence: None,
+        ..Config::default()
+    };
+    let mut runner = TestRunner::new(cfg);
+    let strat = pvec(any::<u16>(), 0..=500usize);
+    let gcfg = GenCfg {
+        max_ops: 14,
+        tl_in_batch_access: false,
+        ..GenCfg::default()
+    };
+    let mut plans: Vec<Plan> = vec![];
+    for _ in 0..n {
+        let stream = strat.new_tree(&mut runner).map(|t| t.current()).unwrap_or_default();
+        plans.push(gen_plan(&mut Src::new(&stream), &gcfg));
+    }
+    let td = std::env::var("CARGO_TARGET_DIR").unwrap_or_else(|_| verif_dir().join("target").to_string_lossy().to_string());
+    let dir = std::path::Path::new(&td).join("external");
+    let _ = std::fs::create_dir_all(&dir);
+    let input = dir.join(format!("{}-plans.jsonl", property));
+    let text: String = plans.iter().map(|p| serde_json::to_string(p).unwrap() + "\n").collect();
+    if let Err(e) = std::fs::write(&input, text) {
+        harness_error = Some(format!("cannot write {}: {}", input.display(), e));
+    }
+    // this process
+    let own: Vec<serde_json::Value> = plans.iter().map(|p| crate::nopar::summarise(p, 2)).collect();
+    let mut others: Vec<(&str, Vec<serde_json::Value>)> = vec![];
+    let mut run = |label: &'static str, exe: std::path::PathBuf, args: Vec<String>| -> Result<(), String> {
+        let out = dir.join(format!("{}-{}.jsonl", property, label));
+        let mut a = args;
+        a.push(input.to_string_lossy().to_string());
+        a.push(out.to_string_lossy().to_string());
+        let st = std::process::Command::new(&exe)
+            .args(&a)
+            .status()
+            .map_err(|e| format!("cannot run {}: {}", exe.display(), e))?;
+        if !st.success() {
+            return Err(format!("{} ended with {:?}", exe.display(), st.code()));
+        }
+        let text = std::fs::read_to_string(&out).map_err(|e| e.to_string())?;
+        let v: Vec<serde_json::Value> = text
+            .lines()
+            .map(|l| serde_json::from_str(l).unwrap_or(serde_json::Value::Null))
+            .collect();
+        others.push((label, v));
+        Ok(())
+    };
+    if harness_error.is_none() {
+        match std::env::current_exe() {
+            Ok(exe) => {
+                if let Err(e) = run("second-process", exe, vec!["layouts".into()]) {
+                    harness_error = Some(e);
+                }
+            }
+            Err(e) => harness_error = Some(e.to_string()),
+        }
+    }
+    if harness_error.is_none() {
+        match std::env::var("VERIF_NOPAR_BIN") {
+            Ok(p) if std::path::Path::new(&p).exists() => {
+                if let Err(e) = run("no-parallel-feature", p.into(), vec![]) {
+                    harness_error = Some(e);
+                }
+            }
+            _ => {
+                harness_error = Some("the harness without the `parallel` feature was not built (VERIF_NOPAR_BIN)".into());
+            }
+        }
+    }
+    if harness_error.is_none() {
+        'cmp: for (i, plan) in plans.iter().enumerate() {
+            stats.evaluations += 1;
+            let mine = &own[i];
+            if mine.get("error").is_some() {
+                continue;
+            }
+            let nontrivial = if property == "C19" {
+                mine["layouts"]["by_bid"]["0"]["stages"].as_array().map(|a| a.len() >= 2).unwrap_or(false)
+            } else {
+                let f = compile(plan);
+                let mut w = std::collections::BTreeMap::new();
+                for s in &f.sys {
+                    for x in &s.own_w {
+                        *w.entry(*x).or_insert(0) += 1;
+                    }
+                }
+                w.values().any(|c| *c >= 2)
+            };
+            if nontrivial {
+                stats.nontrivial(plan, || mine["layouts"].clone());
+            }
+            for (label, v) in &others {
+                let theirs = v.get(i).cloned().unwrap_or(serde_json::Value::Null);
+                let mut diffs = vec![];
+                if property == "C19" {
+                    if theirs["layouts"] != mine["layouts"] {
+                        diffs.push(format!("plan differs: {} vs {}", mine["layouts"], theirs["layouts"]));
+                    }
+                } else {
+                    if theirs["seq"] != mine["seq"] {
+                        diffs.push("result of dispatch_seq + thread-local systems differs".to_string());
+                    }
+                    if *label == "no-parallel-feature" && theirs["dispatch"] != mine["seq"] {
+                        diffs.push("result of dispatch() without the parallel feature differs from the sequential result".to_string());
+                    }
+                }
+                if let Some(d) = diffs.first() {
+                    let msg = format!("[{}] {}", label, d);
+                    let rp = verif_dir().join("replays").join(format!("{}-{}-seed{}.json", property, name, seed));
+                    let _ = std::fs::create_dir_all(rp.parent().unwrap());
+                    let v = json!({"property": property, "check": name, "message": msg, "case": plan});
+                    let _ = std::fs::write(&rp, serde_json::to_string_pretty(&v).unwrap());
+                    violation = Some(Violation {
+                        property: property.to_string(),
+                        check: name.to_string(),
+                        msg,
+                        replay: rp.to_string_lossy().to_string(),
+                    });
+                    break 'cmp;
+                }
+            }
+        }
+    }
+    SubResult {
+        name: name.to_string(),
+        rule: rule.to_string(),
+        stats,
+        violation,
+        harness_error,
+        wall_s: t0.elapsed().as_secs_f64(),
+    }
+}
